@@ -176,8 +176,9 @@ def run(chk, replay=None):
             chk.transitions += r.generated
             chk.tlc_runs.append({"module": "Solvers", "label": "emit " + kind, "generated": r.generated, "wall_s": round(r.wall, 2)})
             cases = [v[0] for tag, v in r.printed if tag == "LS"]
-            if not thorough and kind != "curated" and len(cases) > 120:
-                cases = cases[::max(1, len(cases) // 120)]      # quick tier: an evenly spaced subsample of each family
+            cap = 1500 if thorough else 120
+            if kind != "curated" and len(cases) > cap:
+                cases = cases[::max(1, len(cases) // cap)]      # an evenly spaced subsample of each family (every matrix is still model-checked)
             for part_c, part in zip(par.chunks(cases, 28), par.pmap(_chunk, par.chunks(cases, 28))):
                 for c, res in zip(part_c, part):
                     chk.case({"A": c["A"]}, nontrivial=not c["cls"]["diag"])
